@@ -130,4 +130,201 @@ example : (exReq (some v99) 1).named.isSome = true ∧ isVT kVersionExpr = true 
     find exCtx (exReq (some v99) 1) ([kTypeExact, kCommandLine, kVersion] ++ kVersionExpr :: [sCurrent]) = .ok none := by
   decide
 
+/-! ## what each kind of entry yields -/
+
+theorem tagHere_none_iff (st : Stack) (t n f : Str) :
+    tagHere st t n f = none ↔
+      ∀ v, ¬ (tagVersion st t n f = some v ∧ declared st n v f = true) := by
+  rw [Option.eq_none_iff_forall_ne_some]
+  constructor
+  · intro h v hv
+    exact h v ((tagHere_some_iff st t n f v).mpr hv)
+  · intro h v hv
+    exact h v ((tagHere_some_iff st t n f v).mp hv)
+
+/-- A tag entry yields the version carrying that tag in the first stack on the path that has it —
+"has it" meaning: the stack's chain file assigns the tag, for the flavor asked, to a version the
+stack declares for that flavor.  The reason reported is the tag. -/
+theorem C03_tag_entry (C : Ctx) (r : Req) (e : Str) (post : List Str) (p : Prod) (reason : Str)
+    (ht : isPlainTag C e = true) :
+    lookupEntry C r e post = .ok (.hit p reason) ↔
+      reason = e ∧ p.flavor = r.flavor ∧
+      (∃ st, C.db[p.stack]? = some st ∧ tagVersion st e r.name r.flavor = some p.version ∧
+          declared st r.name p.version r.flavor = true) ∧
+      ∀ (j : Nat) (st' : Stack), j < p.stack → C.db[j]? = some st' →
+        ∀ v, ¬ (tagVersion st' e r.name r.flavor = some v ∧ declared st' r.name v r.flavor = true) := by
+  rw [lookupEntry_plainTag post ht]
+  cases hl : lookupTag C.db e r.name r.flavor with
+  | none =>
+    simp only [Except.ok.injEq, reduceCtorEq, false_iff]
+    rintro ⟨_, hf, hst, hmin⟩
+    have : lookupTag C.db e r.name r.flavor = some p := by
+      apply (lookupTag_some_iff ..).mpr
+      obtain ⟨st, h1, h2, h3⟩ := hst
+      refine ⟨hf, ⟨st, h1, (tagHere_some_iff ..).mpr ⟨h2, h3⟩⟩, ?_⟩
+      intro j st' hj hget
+      exact (tagHere_none_iff ..).mpr (hmin j st' hj hget)
+    rw [hl] at this
+    cases this
+  | some q =>
+    simp only [Except.ok.injEq, Outcome.hit.injEq]
+    constructor
+    · rintro ⟨hq, hr⟩
+      subst hq
+      obtain ⟨hf, ⟨st, h1, h2⟩, hmin⟩ := (lookupTag_some_iff ..).mp hl
+      obtain ⟨h2, h3⟩ := (tagHere_some_iff ..).mp h2
+      refine ⟨hr.symm, hf, ⟨st, h1, h2, h3⟩, ?_⟩
+      intro j st' hj hget
+      exact (tagHere_none_iff ..).mp (hmin j st' hj hget)
+    · rintro ⟨hr, hf, ⟨st, h1, h2, h3⟩, hmin⟩
+      have : lookupTag C.db e r.name r.flavor = some p := by
+        apply (lookupTag_some_iff ..).mpr
+        refine ⟨hf, ⟨st, h1, (tagHere_some_iff ..).mpr ⟨h2, h3⟩⟩, ?_⟩
+        intro j st' hj hget
+        exact (tagHere_none_iff ..).mpr (hmin j st' hj hget)
+      rw [hl] at this
+      cases this
+      exact ⟨rfl, hr.symm⟩
+
+/-- ... and says "continue" exactly when no stack has it; it never gives the request up. -/
+theorem C03_tag_entry_absent (C : Ctx) (r : Req) (e : Str) (post : List Str) (ht : isPlainTag C e = true) :
+    (lookupEntry C r e post = .ok .skip ↔
+      ∀ st ∈ C.db, ∀ v, ¬ (tagVersion st e r.name r.flavor = some v ∧ declared st r.name v r.flavor = true)) ∧
+    lookupEntry C r e post ≠ .ok .abort := by
+  rw [lookupEntry_plainTag post ht]
+  cases hl : lookupTag C.db e r.name r.flavor with
+  | none =>
+    refine ⟨⟨fun _ st hst => ?_, fun _ => rfl⟩, by simp⟩
+    have : firstStack (fun st => tagHere st e r.name r.flavor) 0 C.db = none := by
+      simpa [lookupTag] using hl
+    exact (tagHere_none_iff ..).mp ((firstStack_none_iff _ 0 C.db).mp this st hst)
+  | some q =>
+    refine ⟨⟨fun h => by simp at h, fun h => ?_⟩, by simp⟩
+    obtain ⟨_, ⟨st, h1, h2⟩, _⟩ := (lookupTag_some_iff ..).mp hl
+    exact absurd ((tagHere_some_iff ..).mp h2) (h st (List.mem_of_getElem? h1) q.version)
+
+/-- non-vacuity: `current` is an ordinary tag of the example context -/
+example : isPlainTag exCtx sCurrent = true := by decide
+
+/-- A version entry yields the explicitly named version from the first stack declaring it for the
+flavor; the reason reported is `commandLine` at the top level and `version` below it. -/
+theorem C03_version_entry (C : Ctx) (r : Req) (e v : Str) (post : List Str) (p : Prod) (reason : Str)
+    (he : isVT e = true) (hv : r.named = some v) (hex : isExpr v = .ok false)
+    (hx : e = kVersionExpr → r.vexpr = none) :
+    lookupEntry C r e post = .ok (.hit p reason) ↔
+      reason = (if r.depth == 0 then kCommandLine else kVersion) ∧
+      p.version = v ∧ p.flavor = r.flavor ∧
+      (∃ st, C.db[p.stack]? = some st ∧ declared st r.name v r.flavor = true) ∧
+      ∀ (j : Nat) (st' : Stack), j < p.stack → C.db[j]? = some st' → declared st' r.name v r.flavor = false := by
+  rw [lookupEntry_vt he, hv]
+  simp only
+  rw [lookupVT_explicit post hex hx]
+  cases hl : lookupVersion C.db r.name v r.flavor with
+  | none =>
+    have hne : ¬ ((if post.any isVT = true then (Except.ok Outcome.skip : Except Err Outcome) else .ok .abort)
+        = .ok (.hit p reason)) := by
+      split <;> simp
+    simp only [hne, false_iff, not_and]
+    intro _ h1 h2 h3 h4
+    have : lookupVersion C.db r.name v r.flavor = some p := (lookupVersion_some_iff ..).mpr ⟨h1, h2, h3, h4⟩
+    rw [hl] at this
+    cases this
+  | some q =>
+    simp only [Except.ok.injEq, Outcome.hit.injEq]
+    constructor
+    · rintro ⟨rfl, rfl⟩
+      exact ⟨rfl, (lookupVersion_some_iff ..).mp hl⟩
+    · rintro ⟨rfl, h⟩
+      have : lookupVersion C.db r.name v r.flavor = some p := (lookupVersion_some_iff ..).mpr h
+      rw [hl] at this
+      cases this
+      exact ⟨rfl, rfl⟩
+
+/-- When no stack declares the named version, the entry hands over to a later version-type entry
+if there is one and gives the request up otherwise — it never lets the walk go on to the tags. -/
+theorem C03_version_entry_absent (C : Ctx) (r : Req) (e v : Str) (post : List Str)
+    (he : isVT e = true) (hv : r.named = some v) (hex : isExpr v = .ok false)
+    (hx : e = kVersionExpr → r.vexpr = none)
+    (habs : ∀ st ∈ C.db, declared st r.name v r.flavor = false) :
+    lookupEntry C r e post = .ok (if post.any isVT then .skip else .abort) := by
+  rw [lookupEntry_vt he, hv]
+  simp only
+  rw [lookupVT_explicit post hex hx, (lookupVersion_none_iff ..).mpr habs]
+  by_cases hp : post.any isVT = true <;> simp [hp]
+
+/-- non-vacuity: `p 1.0` at depth 1 on the example database: stack 0 declares it -/
+example : isVT kVersion = true ∧ (exReq (some v10) 1).named = some v10 ∧ isExpr v10 = .ok false ∧
+    lookupEntry exCtx (exReq (some v10) 1) kVersion [kVersionExpr, sCurrent] = .ok (.hit ⟨v10, sLinux, 0⟩ kVersion) := by
+  decide
+
+/-- An expression entry yields the highest declared version satisfying the expression: when some
+stack declares, for the flavor, a version that satisfies it, the `versionExpr` entry answers with a
+satisfying version, taken from the first stack in which it satisfies, such that no satisfying
+version anywhere on the path is newer.  (Needs the order properties of `version_cmp`, C10.) -/
+theorem C03_expr_entry_is_max (C : Ctx) (g : GoodOrd C.ord.cmp) (r : Req) (v : Str) (post : List Str)
+    (hv : r.named = some v) (hex : isExpr v = .ok true)
+    (hsat : ∃ st ∈ C.db, ∃ w, declared st r.name w r.flavor = true ∧ C.ord.vmatch w v = true) :
+    ∃ p, lookupEntry C r kVersionExpr post = .ok (.hit p kVersionExpr) ∧
+      p.flavor = r.flavor ∧
+      (∃ st, C.db[p.stack]? = some st ∧ declared st r.name p.version r.flavor = true ∧
+          C.ord.vmatch p.version v = true ∧
+          ∀ (j : Nat) (st' : Stack), j < p.stack → C.db[j]? = some st' →
+            ¬ (declared st' r.name p.version r.flavor = true ∧ C.ord.vmatch p.version v = true)) ∧
+      ∀ (j : Nat) (st : Stack) (w : Str), C.db[j]? = some st → declared st r.name w r.flavor = true →
+        C.ord.vmatch w v = true → C.ord.cmp w p.version ≤ 0 := by
+  rw [lookupEntry_vt isVT_versionExpr, hv]
+  simp only
+  rw [lookupVT_expr post hex (named_nonempty hv)]
+  cases hl : lookupExpr C.ord C.db r.name r.flavor v with
+  | none =>
+    obtain ⟨st, hst, w, h1, h2⟩ := hsat
+    exact absurd ⟨h1, h2⟩ (lookupExpr_none hl st hst w)
+  | some p =>
+    obtain ⟨h1, ⟨st, h2, h3, h4⟩, h5⟩ := lookupExpr_some g hl
+    refine ⟨p, rfl, h1, ⟨st, h2, h3.1, h3.2, h4⟩, ?_⟩
+    intro j st' w hj hd hm
+    exact h5 j st' w hj ⟨hd, hm⟩
+
+/-- When no declared version satisfies the expression (and none is literally named like it), the
+entry hands over to a later version-type entry or gives the request up. -/
+theorem C03_expr_entry_absent (C : Ctx) (r : Req) (v : Str) (post : List Str)
+    (hv : r.named = some v) (hex : isExpr v = .ok true)
+    (hnone : ∀ st ∈ C.db, ∀ w, ¬ (declared st r.name w r.flavor = true ∧ C.ord.vmatch w v = true))
+    (hlit : ∀ st ∈ C.db, declared st r.name v r.flavor = false) :
+    lookupEntry C r kVersionExpr post = .ok (if post.any isVT then .skip else .abort) := by
+  rw [lookupEntry_vt isVT_versionExpr, hv]
+  simp only
+  rw [lookupVT_expr post hex (named_nonempty hv)]
+  cases hl : lookupExpr C.ord C.db r.name r.flavor v with
+  | none =>
+    simp only
+    rw [(lookupVersion_none_iff ..).mpr hlit]
+    by_cases hp : post.any isVT = true <;> simp [hp]
+  | some p =>
+    obtain ⟨_, ⟨st, h2, h3, _⟩, _⟩ :=
+      selectLatest_some hl |> fun ⟨a, b, c⟩ => (⟨a, (mem_exprCands ..).mp b, c⟩ :
+        p.flavor = r.flavor ∧ (∃ st, C.db[p.stack]? = some st ∧ satisfies C.ord.vmatch st r.name r.flavor v p.version ∧ _) ∧ _)
+    exact absurd h3 (hnone st (List.mem_of_getElem? h2) p.version)
+
+/-- An expression at a `version` / `version!` entry is left for the `versionExpr` entry if one
+follows; otherwise the request is given up there and then. -/
+theorem C03_expr_at_version_entry (C : Ctx) (r : Req) (e v : Str) (post : List Str)
+    (he : e = kVersion ∨ e = kVersionBang) (hv : r.named = some v) (hex : isExpr v = .ok true) :
+    lookupEntry C r e post = .ok (if post.contains kVersionExpr then .skip else .abort) := by
+  have hvt : isVT e = true := by rcases he with rfl | rfl <;> decide
+  have hne : (e != kVersionExpr) = true := by rcases he with rfl | rfl <;> decide
+  rw [lookupEntry_vt hvt, hv]
+  simp only [lookupVT, hex, hne, Bool.and_self, if_true]
+  split <;> rfl
+
+/-- the order hypotheses are satisfiable: any comparison by a numeric key is a `GoodOrd`
+(here: the decimal value of the name) -/
+example : GoodOrd (fun a b => (Str.toNat a : Int) - Str.toNat b) :=
+  ⟨fun a => by simp, fun a b h => by omega, fun a b c h1 h2 => by omega⟩
+
+/-- non-vacuity: `p >= 2.0` on the example database (flavor Linux) is answered by `versionExpr`
+with 2.0 from stack 1; `3.0` exists for the other flavor only -/
+example : lookupEntry exCtx (exReq (some [62, 61, 32, 50, 46, 48]) 1) kVersionExpr [sCurrent]
+    = .ok (.hit ⟨v20, sLinux, 1⟩ kVersionExpr) := by decide
+
 end EupsModel.C03
